@@ -69,6 +69,7 @@
 struct gfs_inputs {
 	int ev_at;                       /* which syscall (running count) is hit */
 	uint8_t fault_short;             /* for write/fwrite/fread: short instead of error */
+	uint8_t fault_eintr;             /* the failing call reports EINTR instead of its typical errno */
 	uint32_t short_len;              /* length of the short transfer */
 	uint8_t readdir_json_first;      /* directory enumeration order */
 	uint8_t flush_now[GFS_NCHOICE];  /* stdio: does this fwrite/fputs drain the buffer now? */
@@ -191,9 +192,12 @@ static int gfs_syscall_(void)
 
 /* an unused slot (a buffered fwrite that performs no write(2)): nothing can happen there */
 #ifdef GFS_FAULT_KIND
-#define GFS_FAULT_SHORT() (GFS_FAULT_KIND)     /* concrete per obligation */
+#define GFS_FAULT_SHORT() ((GFS_FAULT_KIND) == 1)     /* concrete per obligation: 0 error, 1 short transfer, 2 error with EINTR */
+#define GFS_FAULT_ERRNO(dflt) ((GFS_FAULT_KIND) == 2 ? EINTR : (dflt))
 #else
 #define GFS_FAULT_SHORT() (gfs_in()->fault_short)
+/* errno of the injected failure: the call's typical error, or EINTR (legal for every blocking call) */
+#define GFS_FAULT_ERRNO(dflt) (gfs_in()->fault_eintr ? EINTR : (dflt))
 #endif
 #ifdef GFS_SHORT_LEN
 #define GFS_SHORTLEN() ((uint32_t) (GFS_SHORT_LEN))   /* concrete per obligation */
@@ -219,7 +223,7 @@ static int v_mkdir(const char *path, mode_t mode)
 	if (d < 0) fprintf(stderr, "mkdir(%s)\n", path);
 #endif
 	V_ASSERT(d >= 0, "env: mkdir on a path outside the modelled namespace");
-	if (gfs_syscall()) { errno = EACCES; return -1; }
+	if (gfs_syscall()) { errno = GFS_FAULT_ERRNO(EACCES); return -1; }
 	if (gfs_dir[d]) { errno = EEXIST; return -1; }
 	if (!gfs_parent_ok(d)) { errno = ENOENT; return -1; }
 	gfs_dir[d] = 1;
@@ -229,7 +233,7 @@ static int v_stat(const char *path, struct stat *st)
 {
 	int d = gfs_dir_id(path);
 	V_ASSERT(d >= 0, "env: stat on a path outside the modelled namespace");
-	if (gfs_syscall()) { errno = EACCES; return -1; }
+	if (gfs_syscall()) { errno = GFS_FAULT_ERRNO(EACCES); return -1; }
 	if (!gfs_dir[d]) { errno = ENOENT; return -1; }
 	st->st_mode = S_IFDIR | 0755;
 	return 0;
@@ -241,7 +245,7 @@ static int v_rmdir(const char *path)
 		V_ASSERT(0, "env: rmdir on a path outside the modelled namespace");
 		return -1;
 	}
-	if (gfs_syscall()) { errno = EACCES; return -1; }
+	if (gfs_syscall()) { errno = GFS_FAULT_ERRNO(EACCES); return -1; }
 	if (!gfs_dir[d]) { errno = ENOENT; return -1; }
 	if (!gfs_dir_empty(d)) { errno = ENOTEMPTY; return -1; }
 	gfs_dir[d] = 0;
@@ -255,7 +259,7 @@ static int v_open(const char *path, int flags, mode_t mode)
 	int f = gfs_file_id(path);
 	V_ASSERT(f == F_OBS || f == T_OBS, "env: open() on something that is not a stream.obs");
 	V_ASSERT((flags & O_CREAT) && (flags & O_WRONLY), "env: stream opened for writing with O_CREAT");
-	if (gfs_syscall()) { errno = EACCES; return -1; }
+	if (gfs_syscall()) { errno = GFS_FAULT_ERRNO(EACCES); return -1; }
 	if (!gfs_dir[gfs_dir_of_file(f)]) { errno = ENOENT; return -1; }
 	gfs_f[f].exists = 1;          /* no O_TRUNC in the code: length kept (0 for a new file) */
 	gfs_stream_file = f;
@@ -273,7 +277,7 @@ static ssize_t v_write(int fd, const void *buf, size_t n)
 			gfs_shorts_in_row = 0;
 			return (ssize_t) r;
 		}
-		errno = ENOSPC;
+		errno = GFS_FAULT_ERRNO(ENOSPC);
 		return -1;
 	}
 	size_t r = n;
@@ -298,7 +302,7 @@ static int v_close(int fd)
 	V_ASSERT(fd == 3 && gfs_stream_open, "env: close() of the stream fd");
 	int fail = gfs_syscall();
 	gfs_stream_open = 0;            /* POSIX: the descriptor is released even on error */
-	if (fail) { errno = EIO; return -1; }
+	if (fail) { errno = GFS_FAULT_ERRNO(EIO); return -1; }
 	return 0;
 }
 
@@ -326,7 +330,7 @@ static FILE *v_fopen(const char *path, const char *mode)
 	int f = gfs_file_id(path);
 	V_ASSERT(f >= 0, "env: fopen on a path outside the modelled namespace");
 	int w = (mode[0] == 'w');
-	if (gfs_syscall()) { errno = EACCES; return NULL; }
+	if (gfs_syscall()) { errno = GFS_FAULT_ERRNO(EACCES); return NULL; }
 	if (!w && !gfs_f[f].exists) { errno = ENOENT; return NULL; }
 	if (w && !gfs_dir[gfs_dir_of_file(f)]) { errno = ENOENT; return NULL; }
 	int i = 0;
@@ -353,7 +357,7 @@ static int gfs_drain(struct gfs_stream *s)
 			gfs_f[s->file].len += (GFS_SHORTLEN() >= 1 && GFS_SHORTLEN() < s->buffered) ? GFS_SHORTLEN() : 1;
 		s->buffered = 0;            /* stdio drops what it could not write */
 		s->err = 1;
-		errno = ENOSPC;
+		errno = GFS_FAULT_ERRNO(ENOSPC);
 		return -1;
 	}
 	gfs_f[s->file].len += s->buffered;
@@ -425,7 +429,7 @@ static size_t v_fread(void *p, size_t sz, size_t n, FILE *fp)
 			s->pos += r; s->err = 1;
 			return (size_t) r;
 		}
-		s->err = 1; errno = EIO;
+		s->err = 1; errno = GFS_FAULT_ERRNO(EIO);
 		return 0;
 	}
 	uint64_t r = rem < n ? rem : n;
@@ -443,7 +447,7 @@ static int v_fclose(FILE *fp)
 		if (s->err) rc = EOF;
 		gfs_after_write(s);
 	}
-	if (gfs_syscall()) { errno = EIO; rc = EOF; }   /* close(2) */
+	if (gfs_syscall()) { errno = GFS_FAULT_ERRNO(EIO); rc = EOF; }   /* close(2) */
 	s->used = 0;
 	return rc;
 }
@@ -451,7 +455,7 @@ static int v_remove(const char *path)
 {
 	int f = gfs_file_id(path);
 	V_ASSERT(f >= 0, "env: remove on a path outside the modelled namespace");
-	if (gfs_syscall()) { errno = EACCES; return -1; }
+	if (gfs_syscall()) { errno = GFS_FAULT_ERRNO(EACCES); return -1; }
 	if (!gfs_f[f].exists) { errno = ENOENT; return -1; }
 	/* C10 ghost: is the removed file the only complete copy? */
 	int twin = (f == T_OBS) ? F_OBS : (f == T_JSON) ? F_JSON : (f == F_OBS) ? T_OBS : T_JSON;
@@ -472,7 +476,7 @@ static DIR *v_opendir(const char *path)
 {
 	int d = gfs_dir_id(path);
 	V_ASSERT(d == T_THR || d == D_THR, "env: opendir on a thread directory");
-	if (gfs_syscall()) { errno = EACCES; return NULL; }
+	if (gfs_syscall()) { errno = GFS_FAULT_ERRNO(EACCES); return NULL; }
 	if (!gfs_dir[d]) { errno = ENOENT; return NULL; }
 	gfs_rd_pos = 0; gfs_rd_dir = d; gfs_rd_open = 1;
 	gfs_rd_snap.obs = gfs_f[d == T_THR ? T_OBS : F_OBS].exists;
